@@ -225,6 +225,9 @@ func (sta *State) UsedRandomCleaner() {
 }
 
 func (sta *State) registerRandom(r [32]byte) bool {
+	// X25519 ignores the most significant bit of the public key (RFC 7748): both encodings
+	// denote the same key, so they must share one replay-cache entry
+	r[31] &= 0x7f
 	sta.usedRandomM.Lock()
 	_, used := sta.UsedRandom[r]
 	sta.UsedRandom[r] = sta.WorldState.Now().Unix()
